@@ -9,7 +9,8 @@ Mirrors, as the code is now (after the fixes F10, F11, F12, F22):
   (`src/asm/directive/data.rs`): a statement that has not been placed appends with `write`; a placed
   statement is rewritten in the output map if the map holds its address, else with `write_at` in the active
   region if its address lies in `[base, cursor]`, else in the map;
-* `.addr` (`addr.rs`: `change_segment`) and `.align` (`align.rs`: padding through `has_remaining` + `write`).
+* `.addr` (`addr.rs`: `change_segment`) and `.align` (`align.rs`: padding through `has_remaining` + `write`, computed
+  from the unsaturated cursor `base_addr + len()`).
 
 Every `assert!`/`assert_eq!`, the `usize` subtraction of `remaining()` and the index expressions of the
 underlying map are explicit `.panic` outcomes. Only the core library and `Model/Map.lean` are used.
@@ -164,7 +165,9 @@ def step (s : State) : Op → State × Out
     match s.active with
     | none => (s, .diag .inactive)
     | some seg =>
-      let off := (seg.base + seg.buf.length) % n   -- the true cursor (fix F26), not the saturated `curr_addr`
+      -- the true cursor as a 64-bit value: `(u64::from(base_addr) + len() as u64) % u64::from(n)` (/repo 9bfedb8: `curr_addr`
+      -- saturates once the region reaches the end of the address space)
+      let off := (seg.base + seg.buf.length) % n
       if off = 0 then (s, .ok) else
       match seg.remaining with
       | none => (s, .panic)
